@@ -40,9 +40,10 @@ control-feature combination"; `t` is an ARBITRARY table unless stated, and `ofFr
                                                                selection rate / accuracy / mean prediction ARE such means:
                                                                selrate_frame_is_wmean, named_metrics_are_wmean, eval_*_eq_wmean
   callable-vs-dict / several metric columns                    frame_*_col, frame_all_results_col (column j of the frame = the single-metric model);
-                                                               the bare-callable unwrapping `_extract_result` and the result cache keyed by
-                                                               (method, errors) are NOT in the Lean model: covered only by the correspondence
-                                                               (all 12 (method, errors) variants + result type read on every case)
+  result cache keyed by (method, errors), accessor defaults,   src_populate_eq_model, src_group_min_eq_model, src_group_max_eq_model,
+  callable-vs-dict unwrapping (`_extract_result`)              src_difference_eq_model, src_ratio_eq_model, src_cache_explicit_calls,
+                                                               src_cache_default_calls, src_extract_documented (LIFTED: Generated/PopulateSrc.lean
+                                                               interpreted by Model/AggregateCache.lean, + FrameSrc.extract_result)
   zero denominators / all-equal groups                         ratio_between_cases, single_group, ratio_between_eq_one_iff, difference_*_eq_zero_iff
   the model IS the lifted source text                          applyGroupingGen_eq_model, differenceGen_eq_model, ratioGen_eq_model
 NOT COVERED by theorems with a `FiniteCells` hypothesis: metric values ±inf (the model computes them in IEEE
@@ -51,6 +52,7 @@ order/bounds theorems do not speak about them; the generator does not produce ±
 -/
 import FairModel.Lemmas.Aggregate
 import FairModel.Lemmas.AggregateGen
+import FairModel.Lemmas.AggregateCache
 import FairModel.Lemmas.AggregateFrame
 import FairModel.Lemmas.AggregateMore
 import FairModel.Lemmas.WeightedMean
@@ -600,6 +602,67 @@ theorem differenceGen_eq_model (m : Method) (e : Errors) (t : Tables) :
 
 theorem ratioGen_eq_model (m : Method) (e : Errors) (t : Tables) :
     AggregateGen.ratioGen m e t = ratio m e t := AggregateGen.ratioGen_eq m e t
+
+/-! ### the result cache, the accessor defaults and `_extract_result`, lifted from `_metric_frame.py`
+
+`Generated/PopulateSrc.lean` (lifter `populate.py`) is the symbolically executed `_populate_results` (+ `_group`): for every
+cache slot the `DisaggregatedResult` call, the `method` / `errors` value and the `no_control_levels=` flag it is computed
+with, plus the default `errors=` / `method=` of `MetricFrame.group_min / group_max / difference / ratio` and the slot each
+of them returns.  `Model/AggregateCache.lean` interprets it (driver op `aggc.eval`, compared with the real accessors on
+every case, with and without explicit arguments).  The theorems say that slot `(method, errors)` holds the aggregate
+evaluated with exactly THAT method and errors value, that the accessors default to errors='raise' (group_min / group_max)
+resp. method='between_groups', errors='coerce' (difference / ratio), and that the lifted `_extract_result`
+(`FrameSrc.extract_result`) hands out the documented part (scalar / Series / frame) for every accessor. -/
+
+theorem src_populate_eq_model (usc : Bool) (s : PopulateSrc.Slot) (t : Tables) :
+    AggCache.cached usc s t = .got (AggCache.documentedMode usc t.ncf) (AggCache.direct s t) := AggCache.cached_eq usc s t
+
+theorem src_group_min_eq_model (errors : Option Errors) (usc : Bool) (t : Tables) :
+    AggCache.groupMinPub errors usc t = .got (AggCache.documentedMode usc t.ncf) (groupMin (errors.getD .raise) t) :=
+  AggCache.groupMinPub_eq errors usc t
+
+theorem src_group_max_eq_model (errors : Option Errors) (usc : Bool) (t : Tables) :
+    AggCache.groupMaxPub errors usc t = .got (AggCache.documentedMode usc t.ncf) (groupMax (errors.getD .raise) t) :=
+  AggCache.groupMaxPub_eq errors usc t
+
+theorem src_difference_eq_model (method : Option Method) (errors : Option Errors) (usc : Bool) (t : Tables) :
+    AggCache.differencePub method errors usc t =
+      .got (AggCache.documentedMode usc t.ncf) (difference (method.getD .between) (errors.getD .coerce) t) :=
+  AggCache.differencePub_eq method errors usc t
+
+theorem src_ratio_eq_model (method : Option Method) (errors : Option Errors) (usc : Bool) (t : Tables) :
+    AggCache.ratioPub method errors usc t =
+      .got (AggCache.documentedMode usc t.ncf) (ratio (method.getD .between) (errors.getD .coerce) t) :=
+  AggCache.ratioPub_eq method errors usc t
+
+/-- the 12 explicit `(method, errors)` calls of the lifted op `aggc.eval` are the 12 results of `agg.eval` (`allResults`,
+    the list every other theorem of this file is about) -/
+theorem src_cache_explicit_calls (usc : Bool) (t : Tables) :
+    ((AggCache.allCalls usc t).take 12).map AggCache.Got.value = allResults t := AggCache.allCalls_explicit usc t
+
+/-- the calls that leave `errors=` and / or `method=` out: the documented defaults -/
+theorem src_cache_default_calls (usc : Bool) (t : Tables) :
+    ((AggCache.allCalls usc t).drop 12).map AggCache.Got.value =
+      [groupMin .raise t, groupMax .raise t,
+       difference .between .coerce t, difference .between .coerce t, difference .toOverall .coerce t,
+       difference .between .raise t, difference .between .coerce t,
+       ratio .between .coerce t, ratio .between .coerce t, ratio .toOverall .coerce t,
+       ratio .between .raise t, ratio .between .coerce t] := AggCache.allCalls_defaults usc t
+
+/-- callable-vs-dict: every accessor hands out the documented part of the underlying pandas result (bare callable:
+    the scalar without, a Series with control features; dict: the whole Series / DataFrame) -/
+theorem src_extract_documented (usc : Bool) (t : Tables) :
+    ∀ g ∈ AggCache.allCalls usc t, ∃ r, g = .got (AggCache.documentedMode usc t.ncf) r := AggCache.allCalls_mode usc t
+
+-- non-vacuity / regression witness: groups 1 and a NON-SCALAR cell, bare callable, no control features: the raise and
+-- coerce slots differ, group_min() / group_max() raise (default 'raise'), difference() / ratio() answer (default 'coerce')
+example : (AggCache.allCalls true ⟨0, [(["a"], .scalar (fin 1)), (["b"], .nonscalar)], [([], .scalar (fin 1))], false⟩).map
+    AggCache.Got.fmt =
+    ["entry0:err", "entry0:-|1", "entry0:err", "entry0:-|1", "entry0:err", "entry0:-|0", "entry0:err", "entry0:err",
+     "entry0:err", "entry0:-|1", "entry0:err", "entry0:err",
+     "entry0:err", "entry0:err", "entry0:-|0", "entry0:-|0", "entry0:err", "entry0:err", "entry0:-|0",
+     "entry0:-|1", "entry0:-|1", "entry0:err", "entry0:err", "entry0:-|1"] := by
+  decide +kernel
 
 /-! ### when the disparities vanish -/
 
